@@ -4,6 +4,8 @@ set -e
 here=$(cd "$(dirname "$0")" && pwd)
 out=$here/../build/runner
 mkdir -p "$out"
-cp "$here/../coq/tt_model.ml" "$here/../coq/tt_model.mli" "$here"/sexp.ml "$here"/glue.ml "$here"/main.ml "$out"/
+rm -f "$out"/*.ml "$out"/*.mli
+cp "$here/../coq/tt_model.ml" "$here/../coq/tt_model.mli" "$here"/*.ml "$out"/
 cd "$out"
-ocamlfind ocamlopt -O2 -w -a -package unix -linkpkg tt_model.mli tt_model.ml sexp.ml glue.ml main.ml -o tt-runner 2>&1
+cmds=$(ls cmds_*.ml | sort)
+ocamlfind ocamlopt -O2 -w -a -package unix -linkpkg tt_model.mli tt_model.ml sexp.ml glue.ml registry.ml $cmds main.ml -o tt-runner 2>&1
